@@ -6,7 +6,9 @@
   `yash-semantics/src/command/{simple_command/*, compound_command}.rs` uses the `RedirGuard`.
 
   Error messages written to descriptor 2 have no modelled text: a file that received one is
-  *tainted* (its content and the offsets of descriptions on it are reported as `T` on both sides).
+  *tainted* for the rest of the run (its content and the offsets of descriptions on it are reported
+  as `T` on both sides, also after a later truncation, because offsets that moved past a message
+  are no longer known).
 -/
 import YashModel.Redir.Model
 namespace YashModel.Redir
@@ -62,7 +64,7 @@ def World.resolve (w : World) (req : OpenReq) : World × Except Errno Nat :=
     ({ w with ofds := w.ofds ++ [⟨req.path, rd, wr, req.args.append, 0⟩] }, .ok w.ofds.length)
   if f.present then
     if req.args.excl then (w, .error .EEXIST)
-    else if req.args.trunc && f.kind == .reg then mk (setFile w req.path { f with content := [], tainted := false })
+    else if req.args.trunc && f.kind == .reg then mk (setFile w req.path { f with content := [] })
     else mk w
   else if req.args.create then mk (setFile w req.path ⟨true, .reg, [], false⟩)
   else (w, .error .ENOENT)
